@@ -106,12 +106,12 @@ type memoEntry struct {
 }
 type memoTransport struct {
 	mutSeed uint64 // != 0: the service's answers are perturbed (see mutateMsg)
-	inner  grpcds.RPCTransport
-	mu     sync.Mutex
-	memo   map[string]*memoEntry
-	order  []*memoEntry
-	dumps  map[int]string
-	svcErr int
+	inner   grpcds.RPCTransport
+	mu      sync.Mutex
+	memo    map[string]*memoEntry
+	order   []*memoEntry
+	dumps   map[int]string
+	svcErr  int
 }
 
 func newMemo(inner grpcds.RPCTransport) *memoTransport {
